@@ -1455,6 +1455,13 @@ substitute_decl(CPPDeclaration::SubstDecl &subst,
  */
 void CPPStructType::
 output(std::ostream &out, int indent_level, CPPScope *scope, bool complete) const {
+  // If this class is (erroneously) listed among its own members, writing it
+  // out in full would never end; write only the name the second time around.
+  static std::set<const CPPStructType *> writing;
+  if (complete && _ident != nullptr && writing.count(this) != 0) {
+    complete = false;
+  }
+
   if (!complete && _ident != nullptr) {
     // If we have a name, use it.
     if (cppparser_output_class_keyword) {
@@ -1498,7 +1505,11 @@ output(std::ostream &out, int indent_level, CPPScope *scope, bool complete) cons
     }
 
     out << " {\n";
+    bool inserted = writing.insert(this).second;
     _scope->write(out, indent_level + 2, _scope);
+    if (inserted) {
+      writing.erase(this);
+    }
     indent(out, indent_level) << "}";
   }
 }
